@@ -169,7 +169,8 @@ def check_shapes(ctx: Ctx) -> None:
                         return one(("scalar",)) if sc else arr("m")
             return extra_call(sa, e, env)
 
-        g = _spec(f, {"self._second_operand_is_number": False})
+        # function x function: the second operand is a function, not a number, whichever flag the code tests
+        g = _spec(f, {"self._second_operand_is_number": False, "self._second_operand_is_func": True})
         # the branch taken when exactly one of the two Jacobians is 1-D
         for n_ in ast.walk(g):
             if isinstance(n_, ast.If) and "ndim" in norm_stmt(n_.test) and isinstance(n_.test, ast.Compare):
@@ -204,8 +205,17 @@ def check_shapes(ctx: Ctx) -> None:
     sa = ShapeAnalysis(g, {g.args.args[1].arg: arr("q")}, extra_call=lambda sa, e, env: arr("m") if last_attr(e) in ("evaluate", "func") else None, attr_hook=lc_attr)
     _report_shapes(ctx, "10.2-kinds", cname(LCF, "LinearCompositeFunction", "_restricted_function"), g, sa, ("arr", ("m",)))
     # the point at which f is differentiated is the point at which it is evaluated
-    pts = [norm_stmt(c.args[0]) for fn in (f, g) for c in walk_body(fn) if isinstance(c, ast.Call) and last_attr(c) in ("jac", "_jac", "evaluate", "func") and c.args]
-    ctx.ob("10.3-same-point", cname(LCF, "LinearCompositeFunction", "_restricted_jac"), len(pts) == 2 and pts[0] == pts[1], f"value and Jacobian of the composed function must evaluate f at the same point A.x; found {pts}", node=f, stmt="f evaluated and differentiated at A.x")
+    from gv.dataflow import SymValues
+
+    pts = []
+    for fn in (f, g):
+        sv = SymValues(fn)
+        here = set()
+        for c in walk_body(fn):
+            if isinstance(c, ast.Call) and last_attr(c) in ("jac", "_jac", "evaluate", "func") and c.args:
+                here |= {_canon_point(t, fn.args.args[1].arg) for t in sv.texts(c.args[0])}
+        pts.append(sorted(here))
+    ctx.ob("10.3-same-point", cname(LCF, "LinearCompositeFunction", "_restricted_jac"), bool(pts[0]) and pts[0] == pts[1], f"value and Jacobian of the composed function must evaluate f at the same point A.x; found {pts}", node=f, stmt="f evaluated and differentiated at A.x")
     # restriction: columns of the active inputs
     h = ctx.index.method(FRS, "FunctionRestriction", "_jac_to_wrap")
 
@@ -220,109 +230,299 @@ def check_shapes(ctx: Ctx) -> None:
     ctx.floor("10.2-kinds-result", 5)
 
 
-def check_operator_agreement(ctx: Ctx) -> None:
-    # addition
-    init = ctx.index.method(OPS, "_AdditionFunctionMaker", "__init__")
-    con = cname(OPS, "_AdditionFunctionMaker", "__init__")
+# ---------------------------------------------------------------------------
+# 10.3: arithmetic of the derivative formulas, decided up to the laws of elementwise arithmetic
+
+_LAYOUT_CALLS = {"transpose", "atleast_1d", "atleast_2d", "atleast_3d", "asarray", "array", "tile", "reshape"}
+_BIN_CALLS = {"multiply": ast.Mult, "mul": ast.Mult, "divide": ast.Div, "true_divide": ast.Div, "truediv": ast.Div, "add": ast.Add, "subtract": ast.Sub, "sub": ast.Sub}
+
+
+def _pmul(p: dict, q: dict) -> dict:
+    out: dict = {}
+    for ma, ca in p.items():
+        for mb, cb in q.items():
+            m = tuple(sorted(ma + mb))
+            out[m] = out.get(m, 0) + ca * cb
+    return {m: c for m, c in out.items() if c}
+
+
+def _padd(p: dict, q: dict, sign: int = 1) -> dict:
+    out = dict(p)
+    for m, c in q.items():
+        out[m] = out.get(m, 0) + sign * c
+    return {m: c for m, c in out.items() if c}
+
+
+def _rational(e: ast.AST, atom, operator=None):
+    """``e`` as a quotient (polynomial, monomial) of atoms: sums, differences, products, quotients and integer powers,
+    written with operators or with the numpy / operator functions; what only changes the layout of an array
+    (transposition, added axes, tiling) is looked through -- the layout is the business of rule 10.2.
+
+    ``atom(node)`` names an operand (or None: its text is the name); ``operator`` is the operator node class
+    ``self._operator(a, b)`` stands for in the scenario examined (None: the call is an atom).
+    """
+    from fractions import Fraction
+
+    one = {(): Fraction(1)}
+
+    def strip(x):
+        while True:
+            if isinstance(x, ast.Attribute) and x.attr == "T":
+                x = x.value
+            elif isinstance(x, ast.Call) and last_attr(x) in _LAYOUT_CALLS:
+                f = x.func
+                if isinstance(f, ast.Name) or dotted(f.value) in ("numpy", "np"):
+                    if not x.args:
+                        return x
+                    x = x.args[0]
+                elif f.attr in ("transpose", "reshape"):
+                    x = f.value
+                else:
+                    return x
+            elif isinstance(x, ast.Subscript) and all(isinstance(d, ast.Slice) and d.lower is d.upper is d.step is None or (isinstance(d, ast.Constant) and d.value in (None, Ellipsis)) or dotted(d) in ("newaxis", "numpy.newaxis", "np.newaxis") for d in (x.slice.elts if isinstance(x.slice, ast.Tuple) else [x.slice])):
+                x = x.value
+            else:
+                return x
+
+    def binop(op, a, b):
+        (na, da), (nb, db) = a, b
+        if op in (ast.Add, ast.Sub):
+            # common denominator: the least common multiple of two monomials
+            from collections import Counter
+
+            ca, cb = Counter(da), Counter(db)
+            lcm = ca | cb
+            ea, eb = tuple(sorted((lcm - ca).elements())), tuple(sorted((lcm - cb).elements()))
+            return _padd(_pmul(na, {ea: Fraction(1)}), _pmul(nb, {eb: Fraction(1)}), 1 if op is ast.Add else -1), tuple(sorted(lcm.elements()))
+        if op is ast.Mult:
+            return _pmul(na, nb), tuple(sorted(da + db))
+        if op is ast.Div:
+            if len(nb) == 1:
+                ((m, c),) = nb.items()
+                return _pmul(na, {db: 1 / c}), tuple(sorted(da + m))
+            name = "(" + " + ".join(f"{c}*{'*'.join(m) or '1'}" for m, c in sorted(nb.items())) + ")"
+            return _pmul(na, {db: Fraction(1)}), tuple(sorted(da + (name,)))
+        raise AssertionError(op)
+
+    def power(base, n: int):
+        out = (dict(one), ())
+        for _ in range(abs(n)):
+            out = binop(ast.Mult, out, base)
+        return binop(ast.Div, (dict(one), ()), out) if n < 0 else out
+
+    def exponent(x):
+        if isinstance(x, ast.UnaryOp) and isinstance(x.op, ast.USub):
+            v = exponent(x.operand)
+            return None if v is None else -v
+        if isinstance(x, ast.Constant) and isinstance(x.value, (int, float)) and not isinstance(x.value, bool) and float(x.value).is_integer() and abs(x.value) <= 6:
+            return int(x.value)
+        return None
+
+    def go(x):
+        x = strip(x)
+        if isinstance(x, ast.Constant) and isinstance(x.value, (int, float)) and not isinstance(x.value, bool):
+            return ({(): Fraction(x.value)} if x.value else {}), ()
+        if isinstance(x, ast.UnaryOp) and isinstance(x.op, (ast.USub, ast.UAdd)):
+            n, d = go(x.operand)
+            return ({m: -c for m, c in n.items()} if isinstance(x.op, ast.USub) else n), d
+        if isinstance(x, ast.BinOp) and type(x.op) in (ast.Add, ast.Sub, ast.Mult, ast.Div):
+            return binop(type(x.op), go(x.left), go(x.right))
+        if isinstance(x, ast.BinOp) and isinstance(x.op, ast.Pow) and exponent(x.right) is not None:
+            return power(go(x.left), exponent(x.right))
+        if isinstance(x, ast.Call) and not x.keywords:
+            name = last_attr(x)
+            if operator is not None and dotted(x.func) == "self._operator" and len(x.args) == 2:
+                return binop(operator, go(x.args[0]), go(x.args[1]))
+            if name in _BIN_CALLS and len(x.args) == 2 and (dotted(x.func) or "").split(".")[0] in (name, "numpy", "np", "operator"):
+                return binop(_BIN_CALLS[name], go(x.args[0]), go(x.args[1]))
+            if name in ("power", "pow") and len(x.args) == 2 and exponent(x.args[1]) is not None:
+                return power(go(x.args[0]), exponent(x.args[1]))
+            if name == "square" and len(x.args) == 1:
+                return power(go(x.args[0]), 2)
+            if name in ("negative", "neg") and len(x.args) == 1:
+                n, d = go(x.args[0])
+                return {m: -c for m, c in n.items()}, d
+        a = atom(x) or ast.unparse(x)
+        return {(a,): Fraction(1)}, ()
+
+    return go(e)
+
+
+def _same_rational(a, b) -> bool:
+    """a == b as quotients (cross-multiplication)."""
+    from fractions import Fraction
+
+    return _pmul(a[0], {b[1]: Fraction(1)}) == _pmul(b[0], {a[1]: Fraction(1)})
+
+
+def _show_rational(r) -> str:
+    def poly(p):
+        return " ".join(f"{'+' if c > 0 else '-'}{'' if abs(c) == 1 and m else abs(c)}{'*'.join(m)}" for m, c in sorted(p.items())) or "0"
+
+    return f"({poly(r[0])})" + (f" / ({'*'.join(r[1])})" if r[1] else "")
+
+
+def _operand_atom(e: ast.AST) -> str | None:
+    """J1/J2: the Jacobian of the first/second operand, F1/F2: its value, C: the second operand itself (a constant)."""
+    if isinstance(e, ast.Call) and isinstance(e.func, ast.Attribute) and e.args:
+        recv = dotted(e.func.value)
+        who = {"self._first_operand": "1", "self._second_operand": "2"}.get(recv)
+        what = "J" if e.func.attr in ("_jac", "jac") else ("F" if e.func.attr in ("func", "evaluate", "_func") else None)
+        if who and what:
+            return what + who
+    if dotted(e) == "self._second_operand":
+        return "C"
+    return None
+
+
+def _maker_scenarios(ctx: Ctx, cls: str, names: tuple, reprs: tuple):
+    """The operator and its representation a maker passes to its base class when ``inverse`` is false / true.
+
+    Returns {False: (operator text, repr), True: (...)}; the obligation 10.3-flag states that they are ``names`` and
+    ``reprs`` (direct, inverse).  Whatever the spelling: conditional expressions, ``not inverse``, locals, statements.
+    """
+    from gv.astutil import arg_or_kw
+    from gv.props.shared import unfolded
+
+    init = ctx.index.method(OPS, cls, "__init__")
     sup = rules.super_calls(init, "__init__")
-    ctx.need(len(sup) == 1 and len(sup[0].args) >= 5, "_AdditionFunctionMaker.__init__: super().__init__(cls, a, b, operator, repr) not found")
-    op, rep = sup[0].args[3], sup[0].args[4]
-    ok = isinstance(op, ast.IfExp) and isinstance(rep, ast.IfExp) and norm_stmt(op.test) == norm_stmt(rep.test) == "inverse" and dotted(op.body) == "_subtract" and dotted(op.orelse) == "_add" and rep.body.value == "-" and rep.orelse.value == "+"
-    ctx.ob("10.3-flag", con, ok, "the value operator and its representation must be selected by the same flag: inverse -> (_subtract, '-'), otherwise (_add, '+')", node=sup[0])
+    ctx.need(len(sup) == 1, f"{cls}.__init__: one call super().__init__(cls, a, b, operator, repr) expected")
+    found = {}
+    for inv in (False, True):
+        ops = unfolded(init, sup[0], facts={"inverse": inv}, get=lambda c: arg_or_kw(c, 3, "operator")) or []
+        reps = unfolded(init, sup[0], facts={"inverse": inv}, get=lambda c: arg_or_kw(c, 4, "operator_repr")) or []
+        found[inv] = (dotted(ops[0]) if len(ops) == 1 else None, reps[0].value if len(reps) == 1 and isinstance(reps[0], ast.Constant) else None)
+    return init, sup[0], found
+
+
+def _flag_meaning(e: ast.AST, table: dict, number_attr_ok: bool):
+    """What the truth of the condition ``e`` says: (the second operand is a number, the operator is the inverse one),
+    each True / False / None (says nothing).  ``table`` maps the operator's last name and the representation to
+    inverse; the comparison may be ``==``, ``is``, ``!=``, ``is not``, either way round.
+    """
+    txt = norm_stmt(e)
+    if txt == "self._second_operand_is_number":
+        return True, None
+    if txt == "self._second_operand_is_func" and number_attr_ok:
+        return False, None
+    parts = compare_parts(e) if isinstance(e, ast.Compare) and len(e.ops) == 1 else None
+    if parts is None or parts[1] not in (ast.Eq, ast.Is, ast.NotEq, ast.IsNot):
+        return None, None
+    left, op, right = parts
+    for a, b in ((left, right), (right, left)):
+        key = None
+        if dotted(a) == "self._operator_repr" and isinstance(b, ast.Constant) and isinstance(b.value, str):
+            key = ("repr", b.value)
+        elif dotted(a) == "self._operator" and dotted(b):
+            key = ("op", dotted(b).split(".")[-1])
+        if key in table:
+            return None, (table[key] if op in (ast.Eq, ast.Is) else not table[key])
+    return None, None
+
+
+def check_operator_agreement(ctx: Ctx) -> None:
+    from fractions import Fraction
+
+    from gv.props.shared import unfolded
+
+    base_init = ctx.index.method(OPS, "_OperationFunctionMaker", "__init__")
+    # exactly one of the two flags holds once the maker is built: ``not number and not func`` raises
+    number_attr_ok = any(isinstance(s_, ast.If) and norm_stmt(s_.test) in ("not self._second_operand_is_number and (not self._second_operand_is_func)", "not self._second_operand_is_number and not self._second_operand_is_func") and any(isinstance(b, ast.Raise) for b in s_.body) for s_ in stmts_of(base_init))
     mod = ctx.index.module(OPS)
+
+    def mono(*atoms, c=1):
+        return {tuple(sorted(atoms)): Fraction(c)}
+
+    def check_maker(cls, names, reprs, operators, expected, messages):
+        init, sup, found = _maker_scenarios(ctx, cls, names, reprs)
+        ok = found[False] == (names[0], reprs[0]) and found[True] == (names[1], reprs[1])
+        ctx.ob("10.3-flag", cname(OPS, cls, "__init__"), ok, f"the value operator and its representation must be selected by the same flag: inverse -> ({names[1]}, {reprs[1]!r}), otherwise ({names[0]}, {reprs[0]!r}); found {found}", node=sup)
+        table = {("op", names[0].split(".")[-1]): False, ("op", names[1].split(".")[-1]): True, ("repr", reprs[0]): False, ("repr", reprs[1]): True}
+        j = ctx.index.method(OPS, cls, "_compute_operation_jacobian")
+        conj = cname(OPS, cls, "_compute_operation_jacobian")
+        rets = [s_ for s_ in stmts_of(j) if isinstance(s_, ast.Return)]
+        ctx.need(rets, f"{cls}._compute_operation_jacobian: no return")
+        # every condition on the operator or on the kind of the second operand, with what its truth says
+        flags = {}
+        for n_ in ast.walk(j):
+            if isinstance(n_, (ast.Compare, ast.Attribute)):
+                number, inverse = _flag_meaning(n_, table, number_attr_ok)
+                if number is not None or inverse is not None:
+                    flags[norm_stmt(n_)] = (number, inverse)
+        bad: dict[int, list[str]] = {}
+        reached: dict[int, int] = {}
+        covered = set()
+        for num in (True, False):
+            for inv in (False, True):
+                # the function as it runs in this scenario: the conditions above are decided, the locals unfolded
+                facts = {txt: (num == number if number is not None else inv == inverse) for txt, (number, inverse) in flags.items()}
+                want = expected[(num, inv)]
+                for r in rets:
+                    alts = unfolded(j, r, facts=facts, get=lambda s_: s_.value)
+                    if not alts:
+                        continue
+                    covered.add((num, inv))
+                    reached[id(r)] = reached.get(id(r), 0) + 1
+                    for a in alts:
+                        got = _rational(a, _operand_atom, operators[inv])
+                        if not _same_rational(got, want):
+                            bad.setdefault(id(r), []).append(f"with {'a constant' if num else 'a function'} as second operand and the operator {reprs[inv]!r} it returns {_show_rational(got)[:200]} instead of {_show_rational(want)}")
+        for r in rets:
+            if id(r) in reached:
+                msgs = list(dict.fromkeys(bad.get(id(r), [])))
+                ctx.ob("10.3-derivative", conj, not msgs, messages + ": " + "; ".join(msgs) + " (J1, J2: the Jacobians of the operands, F1, F2: their values, C: the constant)", node=r)
+        ctx.ob("10.3-derivative", conj, covered == {(n_, i_) for n_ in (True, False) for i_ in (True, False)}, f"some combination of (second operand is a constant, inverse operator) reaches no return: {sorted(covered)}", node=j, stmt="every operator and operand kind has its derivative")
+
+    # addition
     for name, want in (("_add", ast.Add), ("_subtract", ast.Sub)):
         fn = mod.functions.get(name)
         good = ("operator.add", "numpy.add") if want is ast.Add else ("operator.sub", "numpy.subtract")
         if fn is not None:
-            ok = any(isinstance(r, ast.Return) and isinstance(r.value, ast.BinOp) and isinstance(r.value.op, want) and [dotted(r.value.left), dotted(r.value.right)] == [a.arg for a in fn.args.args[:2]] for r in ast.walk(fn))
+            a_, b_ = (fn.args.args[0].arg, fn.args.args[1].arg) if len(fn.args.args) >= 2 else ("?", "?")
+            target = ({(a_,): Fraction(1), (b_,): Fraction(1 if want is ast.Add else -1)}, ())
+            rets = [r for r in stmts_of(fn) if isinstance(r, ast.Return) and r.value is not None]
+            ok = bool(rets) and all(_same_rational(_rational(alt, lambda e: None), target) for r in rets for alt in (unfolded(fn, r.value) or [ast.Name(id="?")]))
         else:
             ok = mod.imports.get(name) in good or dotted(mod.assigns.get(name)) in good
-        ctx.ob("10.3-flag", cname(OPS, None, name), bool(ok), f"{name} must compute first {'+' if want is ast.Add else '-'} second (found {mod.imports.get(name)})", node=fn or sup[0], stmt=f"{name} definition")
-    j = ctx.index.method(OPS, "_AdditionFunctionMaker", "_compute_operation_jacobian")
-    conj = cname(OPS, "_AdditionFunctionMaker", "_compute_operation_jacobian")
-    cfg = cfg_of(j)
-    for r in [s for s in stmts_of(j) if isinstance(s, ast.Return)]:
-        v = r.value
-        lits = [(norm_stmt(cfg.ast[t].test), val) for t, val in branch_conditions(cfg, cfg.node_of(r)) if cfg.kind[t] == "test"]
-        if isinstance(v, ast.BinOp):
-            plus = any((txt == "self._operator_repr == '+'" and val) or (txt == "self._operator_repr == '-'" and not val) for txt, val in lits)
-            minus = any((txt == "self._operator_repr == '+'" and not val) or (txt == "self._operator_repr == '-'" and val) for txt, val in lits)
-            ok = (isinstance(v.op, ast.Add) and plus and not minus) or (isinstance(v.op, ast.Sub) and minus and not plus)
-            ok = ok and "_first_operand" in norm_stmt(v.left) and "_second_operand" in norm_stmt(v.right)
-            ctx.ob("10.3-derivative", conj, ok, "the derivative of f + g is f' + g' and of f - g is f' - g' (first operand first): the branch must match the operator representation", node=r)
-        else:
-            ok = any(txt == "self._second_operand_is_number" and val for txt, val in lits) and "_first_operand" in norm_stmt(v)
-            ctx.ob("10.3-derivative", conj, ok, "adding a constant leaves the Jacobian of the function unchanged", node=r)
+        ctx.ob("10.3-flag", cname(OPS, None, name), bool(ok), f"{name} must compute first {'+' if want is ast.Add else '-'} second (found {mod.imports.get(name)})", node=fn or base_init, stmt=f"{name} definition")
+    j1, j2 = mono("J1"), mono("J2")
+    check_maker(
+        "_AdditionFunctionMaker",
+        ("_add", "_subtract"),
+        ("+", "-"),
+        {False: ast.Add, True: ast.Sub},
+        {(True, False): (j1, ()), (True, True): (j1, ()), (False, False): (_padd(j1, j2), ()), (False, True): (_padd(j1, j2, -1), ())},
+        "the derivative of f + g is f' + g', of f - g it is f' - g', and adding a constant leaves the Jacobian unchanged",
+    )
     # multiplication
-    init = ctx.index.method(OPS, "_MultiplicationFunctionMaker", "__init__")
-    sup = rules.super_calls(init, "__init__")
-    ctx.need(len(sup) == 1 and len(sup[0].args) >= 5, "_MultiplicationFunctionMaker.__init__: super().__init__ not found")
-    op, rep = sup[0].args[3], sup[0].args[4]
-    ok = isinstance(op, ast.IfExp) and isinstance(rep, ast.IfExp) and norm_stmt(op.test) == norm_stmt(rep.test) == "inverse" and dotted(op.body).endswith("divide") and dotted(op.orelse).endswith("multiply") and rep.body.value == "/" and rep.orelse.value == "*"
-    ctx.ob("10.3-flag", cname(OPS, "_MultiplicationFunctionMaker", "__init__"), ok, "inverse -> (divide, '/'), otherwise (multiply, '*')", node=sup[0])
-    j = ctx.index.method(OPS, "_MultiplicationFunctionMaker", "_compute_operation_jacobian")
-    conj = cname(OPS, "_MultiplicationFunctionMaker", "_compute_operation_jacobian")
-    cfg = cfg_of(j)
-    # local roles
-    role = {}
-    for s in stmts_of(j):
-        if isinstance(s, ast.Assign) and isinstance(s.targets[0], ast.Name):
-            txt = norm_stmt(s.value, 200)
-            who = "1" if "_first_operand" in txt else ("2" if "_second_operand" in txt else None)
-            what = "J" if "._jac(" in txt or ".jac(" in txt else ("F" if ".func(" in txt or ".evaluate(" in txt else None)
-            if who and what:
-                role[s.targets[0].id] = what + who
-            elif isinstance(s.value, ast.Call) and last_attr(s.value) == "transpose" and dotted(s.value.args[0]) in role:
-                role[s.targets[0].id] = role[dotted(s.value.args[0])]
-            elif isinstance(s.value, ast.Attribute) and s.value.attr == "T" and dotted(s.value.value) in role:
-                role[s.targets[0].id] = role[dotted(s.value.value)]
-
-    def terms(e):
-        """[(sign, frozenset(roles))] of a sum of products."""
-        if isinstance(e, ast.Attribute) and e.attr == "T":
-            return terms(e.value)
-        if isinstance(e, ast.BinOp) and isinstance(e.op, (ast.Add, ast.Sub)):
-            r = terms(e.right)
-            return terms(e.left) + [(-s if isinstance(e.op, ast.Sub) else s, t) for s, t in r]
-        if isinstance(e, ast.BinOp) and isinstance(e.op, ast.Mult):
-            names = frozenset(role.get(n, n) for n in names_in(e))
-            return [(1, names)]
-        return [(1, frozenset({norm_stmt(e)}))]
-
-    rets = [s for s in stmts_of(j) if isinstance(s, ast.Return)]
-    prod = quot = None
-    for r in rets:
-        lits = [(norm_stmt(cfg.ast[t].test), val) for t, val in branch_conditions(cfg, cfg.node_of(r)) if cfg.kind[t] == "test"]
-        is_mul = any(("multiply" in txt and "_operator ==" in txt and val) for txt, val in lits)
-        is_div = any(("multiply" in txt and "_operator ==" in txt and not val) for txt, val in lits)
-        number = any(txt == "self._second_operand_is_number" and val for txt, val in lits)
-        if number:
-            ok = isinstance(r.value, ast.Call) and last_attr(r.value) == "_operator" and role.get(dotted(r.value.args[0])) == "J1"
-            ctx.ob("10.3-derivative", conj, ok, "multiplying/dividing by a constant applies the same operator to the Jacobian of the function", node=r)
-        elif is_mul:
-            prod = r
-        elif is_div:
-            quot = r
-    ctx.need(prod is not None and quot is not None, "_MultiplicationFunctionMaker: product/quotient returns not identified")
-    from collections import Counter
-
-    t = list(terms(prod.value))
-    ok = Counter(t) == Counter([(1, frozenset({"J1", "F2"})), (1, frozenset({"J2", "F1"}))])
-    ctx.ob("10.3-derivative", conj, ok, "product rule: (f g)' = f' g + g' f (each operand's Jacobian paired with the other operand's value, both added)", node=prod, slots={"terms": sorted(f"{s:+d}{sorted(x)}" for s, x in t)})
-    qv = quot.value
-    while isinstance(qv, ast.Attribute) and qv.attr == "T":
-        qv = qv.value
-    ok = isinstance(qv, ast.BinOp) and isinstance(qv.op, ast.Div)
-    if ok:
-        num = Counter(terms(qv.left))
-        den = qv.right
-        ok = num == Counter([(1, frozenset({"J1", "F2"})), (-1, frozenset({"J2", "F1"}))]) and isinstance(den, ast.BinOp) and isinstance(den.op, ast.Pow) and role.get(dotted(den.left)) == "F2" and getattr(den.right, "value", None) == 2
-    ctx.ob("10.3-derivative", conj, ok, "quotient rule: (f / g)' = (f' g - g' f) / g**2", node=quot)
+    cross = _padd(mono("J1", "F2"), mono("J2", "F1"))
+    cross_m = _padd(mono("J1", "F2"), mono("J2", "F1"), -1)
+    check_maker(
+        "_MultiplicationFunctionMaker",
+        ("numpy.multiply", "numpy.divide"),
+        ("*", "/"),
+        {False: ast.Mult, True: ast.Div},
+        {(True, False): (mono("J1", "C"), ()), (True, True): (j1, ("C",)), (False, False): (cross, ()), (False, True): (cross_m, ("F2", "F2"))},
+        "product rule (f g)' = f' g + g' f, quotient rule (f / g)' = (f' g - g' f) / g**2, and a constant factor applies to the Jacobian the operator it applies to the value",
+    )
     # value code applies the stored operator to (first, second) in this order
     v = ctx.index.method(OPS, "_OperationFunctionMaker", "_compute_operation")
-    rets = [s for s in stmts_of(v) if isinstance(s, ast.Return)]
-    ok = len(rets) == 1 and isinstance(rets[0].value, ast.Call) and last_attr(rets[0].value) == "_operator" and "_first_operand" in norm_stmt(rets[0].value.args[0]) and "second_operand" in norm_stmt(rets[0].value.args[1])
-    ctx.ob("10.3-value", cname(OPS, "_OperationFunctionMaker", "_compute_operation"), ok, "the value is operator(first(x), second(x) or the constant), in this order", node=(rets or [v])[0])
+    rets = [s_ for s_ in stmts_of(v) if isinstance(s_, ast.Return)]
+    ok = bool(rets)
+    seen = []
+    for is_func in (True, False):
+        facts = {"self._second_operand_is_func": is_func}
+        if number_attr_ok:
+            facts["self._second_operand_is_number"] = not is_func
+        n_alts = 0
+        for r in rets:
+            alts = unfolded(v, r, facts=facts, get=lambda s_: s_.value)
+            for a in alts or []:
+                n_alts += 1
+                seen.append(norm_stmt(a, 80))
+                ok = ok and isinstance(a, ast.Call) and dotted(a.func) == "self._operator" and len(a.args) == 2 and not a.keywords and _operand_atom(a.args[0]) == "F1" and _operand_atom(a.args[1]) == ("F2" if is_func else "C")
+        ok = ok and n_alts > 0
+    ctx.ob("10.3-value", cname(OPS, "_OperationFunctionMaker", "_compute_operation"), ok, f"the value is operator(first(x), second(x) or the constant), in this order; found {sorted(set(seen))}", node=(rets or [v])[0])
 
 
 # value function -> its derivative siblings (algos/aggregation/core.py, confirmed by reading)
@@ -333,6 +533,122 @@ AGG_PAIRS = {
     "compute_sum_square_agg": ("compute_total_sum_square_agg_jac", "compute_partial_sum_square_agg_jac"),
     "compute_sum_positive_square_agg": ("compute_total_sum_square_positive_agg_jac", "compute_partial_sum_positive_square_agg_jac"),
 }
+
+
+_RAW, _SCALED, _SCALE, _OTHER = "raw", "scaled", "scale", "other"
+_SAME_VALUES = {"asarray", "array", "atleast_1d", "copy", "ravel", "flatten"}
+_SIZE_ATTRS = ("size", "shape", "ndim")
+
+
+def _scaling_of(func: ast.AST, values: str = "orig_val", factor: str = "scale") -> dict:
+    """Where ``func`` reads the constraint values ``values`` as they come and where multiplied by ``factor``.
+
+    A forward analysis tags every local with what it may hold: the constraint values (restricted by an index, copied:
+    ``raw``), their product by the factor whatever its spelling (``v * s``, ``s * v``, ``multiply(v, s)``, ``v *= s``:
+    ``scaled``), the factor itself, or anything else.  The expressions are then walked from the top: a maximal
+    expression that IS the (scaled) constraint values is a read of them, unless it is only given a name
+    (``x = v[indices]``, ``x = v * s``), in which case the reads of that name count.  Reading the size only is no read.
+
+    state: "all" (every read is of the scaled values), "none" (the scaled values are never named and no read mixes
+    both), "partial" otherwise.  scale_loads: every load of the factor; chain_loads: those that do not scale the
+    constraint values.
+    """
+    from gv.dataflow import Forward
+
+    other = frozenset({_OTHER})
+    val = {_RAW, _SCALED}
+
+    def two_operands(e):
+        if isinstance(e, ast.BinOp) and isinstance(e.op, ast.Mult):
+            return e.left, e.right
+        if isinstance(e, ast.Call) and last_attr(e) in ("multiply", "mul") and len(e.args) == 2 and not e.keywords:
+            return e.args[0], e.args[1]
+        return None
+
+    def ev(e, env):
+        if isinstance(e, ast.Name):
+            t = env.get(e.id, other)
+            return other if "?" in t else t
+        if isinstance(e, ast.Subscript):
+            t = ev(e.value, env)
+            return t if t & val else other
+        if isinstance(e, ast.Call) and last_attr(e) in _SAME_VALUES and not e.keywords:
+            # ``v.copy()`` and ``asarray(v)`` hold the same numbers as ``v``
+            inner = e.func.value if isinstance(e.func, ast.Attribute) and not e.args else (e.args[0] if len(e.args) == 1 else None)
+            t = ev(inner, env) if inner is not None else other
+            return t if t & (val | {_SCALE}) else other
+        ops = two_operands(e)
+        if ops:
+            a, b = ev(ops[0], env), ev(ops[1], env)
+            for x, y in ((a, b), (b, a)):
+                if x == {_SCALE} and y & val:
+                    return frozenset(_SCALED if k == _RAW else _OTHER for k in y)
+        return other
+
+    def aug(node, env):
+        if not isinstance(node.target, ast.Name):
+            return other
+        return ev(ast.BinOp(left=ast.Name(id=node.target.id, ctx=ast.Load()), op=node.op, right=node.value), env)
+
+    cfg = cfg_of(func)
+    fw = Forward(cfg, ev, init={values: frozenset({_RAW}), factor: frozenset({_SCALE})}, aug=aug)
+    reads, defs, scale_loads, chain_loads = [], [], [], []
+
+    def visit(e, env):
+        if isinstance(e, ast.Attribute) and e.attr in _SIZE_ATTRS and ev(e.value, env) & val:
+            return
+        if isinstance(e, ast.Call) and dotted(e.func) == "len" and len(e.args) == 1 and ev(e.args[0], env) & val:
+            return
+        if isinstance(e, ast.expr):
+            t = ev(e, env)
+            if t & val:
+                reads.append((e, t))
+                return
+            if isinstance(e, ast.Name) and isinstance(e.ctx, ast.Load) and t == {_SCALE}:
+                chain_loads.append(e)
+        for ch in ast.iter_child_nodes(e):
+            visit(ch, env)
+
+    for st in stmts_of(func):
+        if not cfg.has(st):
+            continue
+        if isinstance(st, (ast.If, ast.While)):
+            roots = [st.test]
+        elif isinstance(st, ast.For):
+            roots = [st.iter]
+        elif isinstance(st, ast.With):
+            roots = [it.context_expr for it in st.items]
+        elif isinstance(st, (ast.Try, ast.FunctionDef, ast.ClassDef)):
+            roots = []
+        else:
+            roots = [st]
+        for root in roots:
+            env = fw.at(root)
+            scale_loads += [n for n in ast.walk(root) if isinstance(n, ast.Name) and isinstance(n.ctx, ast.Load) and ev(n, env) == {_SCALE}]
+            if isinstance(root, ast.Assign) and len(root.targets) == 1 and isinstance(root.targets[0], ast.Name):
+                t = ev(root.value, env)
+                if t & val:
+                    defs.append((root, t))
+                else:
+                    visit(root.value, env)
+            elif isinstance(root, ast.AugAssign) and isinstance(root.target, ast.Name):
+                t = aug(root, env)
+                if t & val:
+                    defs.append((root, t))
+                else:
+                    pre = ev(ast.Name(id=root.target.id, ctx=ast.Load()), env)
+                    if pre & val:
+                        reads.append((root.target, pre))
+                    visit(root.value, env)
+            else:
+                visit(root, env)
+    if reads and all(t == {_SCALED} for _, t in reads):
+        state = "all"
+    elif any(_SCALED in t for _, t in defs) or any(_SCALED in t and t != {_SCALED} for _, t in reads):
+        state = "partial"
+    else:
+        state = "none"
+    return {"state": state, "reads": reads, "defs": [d for d, t in defs if _SCALED in t], "scale_loads": scale_loads, "chain_loads": chain_loads}
 
 
 def check_aggregation(ctx: Ctx) -> None:
@@ -363,40 +679,51 @@ def check_aggregation(ctx: Ctx) -> None:
         v = mod.functions.get(vname)
         if v is None:
             raise AnalysisError(f"aggregation function {vname} not found")
-
-        def prescale(fn):
-            out = [s for s in stmts_of(fn) if isinstance(s, ast.Assign) and norm_stmt(s.targets[0]) == "orig_val" and isinstance(s.value, ast.BinOp) and isinstance(s.value.op, ast.Mult) and {norm_stmt(s.value.left), norm_stmt(s.value.right)} == {"orig_val", "scale"}]
-            out += [s for s in stmts_of(fn) if isinstance(s, ast.AugAssign) and isinstance(s.op, ast.Mult) and norm_stmt(s.target) == "orig_val" and norm_stmt(s.value) == "scale"]
-            return out
-
-        v_pre = prescale(v)
-        uses_scale = any(isinstance(x, ast.Name) and x.id == "scale" and isinstance(x.ctx, ast.Load) for x in walk_body(v))
-        ctx.ob("10.4-scaling", cname(AGG, None, vname), uses_scale, f"{vname} takes a scale and never uses it", node=v, stmt=f"{vname} uses scale")
+        vs = _scaling_of(v)
+        v_pre = vs["state"] == "all"
+        ctx.ob("10.4-scaling", cname(AGG, None, vname), bool(vs["scale_loads"]), f"{vname} takes a scale and never uses it", node=v, stmt=f"{vname} uses scale")
         for jn in jnames:
             j = mod.functions.get(jn)
             con = cname(AGG, None, jn)
             if j is None:
                 ctx.ob("10.4-scaling", con, False, f"the derivative {jn} of {vname} is missing", node=v, stmt=f"{jn} defined")
                 continue
-            j_pre = prescale(j)
-            ok = bool(v_pre) == bool(j_pre)
-            if ok and j_pre:
-                # the scaled values are what every later expression reads
-                cfg = cfg_of(j)
-                pre = cfg.node_of(j_pre[0])
-                for st in stmts_of(j):
-                    if st is j_pre[0] or not cfg.has(st) or isinstance(st, (ast.If, ast.For, ast.While)):
-                        continue
-                    loads = [x for x in ast.walk(st) if isinstance(x, ast.Name) and x.id == "orig_val" and isinstance(x.ctx, ast.Load)]
-                    rebind = isinstance(st, ast.Assign) and norm_stmt(st.targets[0]) == "orig_val"
-                    if loads and not rebind and not cfg.dominates(pre, cfg.node_of(st)):
-                        # reading only the size of the unscaled values is harmless
-                        size_reads = [a.value for a in ast.walk(st) if isinstance(a, ast.Attribute) and a.attr in ("size", "shape", "ndim")]
-                        ok = ok and all(any(x is r for r in size_reads) for x in loads)
-            ctx.ob("10.4-scaling", con, ok, f"{vname} {'scales' if v_pre else 'does not scale'} the constraint values before aggregating them, {jn} {'does' if j_pre else 'does not'}: the Jacobian is not the derivative of the value as soon as scale != 1", node=(j_pre or [j])[0], stmt=f"{jn} pre-scales the constraint values like {vname}")
-            uses = any(isinstance(x, ast.Name) and x.id == "scale" and isinstance(x.ctx, ast.Load) for st in stmts_of(j) if st not in j_pre for x in ast.walk(st))
+            js = _scaling_of(j)
+            j_pre = js["state"] == "all"
+            # the scaled values are what every expression of the derivative reads (their size apart), exactly when they
+            # are what every expression of the value reads; a function that scales them on some paths or for some of
+            # its reads only is neither
+            ok = vs["state"] == js["state"] and js["state"] in ("all", "none")
+            how = {"all": "does", "none": "does not", "partial": "does so for some of its reads only"}
+            ctx.ob("10.4-scaling", con, ok, f"{vname} {'scales' if v_pre else 'does not scale'} the constraint values before aggregating them, {jn} {how[js['state']]}: the Jacobian is not the derivative of the value as soon as scale != 1", node=(js["defs"] or [j])[0], stmt=f"{jn} pre-scales the constraint values like {vname}")
+            # the factor of the chain rule is a use of scale that is not the pre-scaling of the constraint values
+            uses = bool(js["chain_loads"] if j_pre else js["scale_loads"])
             ctx.ob("10.4-scaling", con, uses, f"{jn}: by the chain rule the derivative carries the factor scale once more (d(scale g)/dx = scale dg/dx); it is not applied", node=j, stmt=f"{jn} applies the factor of the chain rule")
     ctx.floor("10.4-scaling", 20)
+
+
+def _canon_point(text: str, param: str) -> str:
+    """One spelling for the point at which a wrapped function is evaluated: the method's own parameter is ``_x`` and a
+    matrix product is ``a @ b`` however it is written (``a.dot(b)``, ``dot(a, b)``, ``matmul(a, b)``)."""
+    import re
+
+    class T(ast.NodeTransformer):
+        def visit_Call(self, n):  # noqa: N802
+            self.generic_visit(n)
+            if n.keywords:
+                return n
+            name = last_attr(n)
+            if name == "dot" and len(n.args) == 1 and isinstance(n.func, ast.Attribute) and dotted(n.func.value) not in ("numpy", "np"):
+                return ast.BinOp(left=n.func.value, op=ast.MatMult(), right=n.args[0])
+            if name in ("dot", "matmul") and len(n.args) == 2 and (isinstance(n.func, ast.Name) or dotted(n.func.value) in ("numpy", "np")):
+                return ast.BinOp(left=n.args[0], op=ast.MatMult(), right=n.args[1])
+            return n
+
+    try:
+        text = ast.unparse(ast.fix_missing_locations(T().visit(ast.parse(text, mode="eval"))))
+    except SyntaxError:
+        pass
+    return re.sub(rf"\b{re.escape(param)}\b", "_x", text)
 
 
 def check_same_point(ctx: Ctx) -> None:
@@ -428,7 +755,7 @@ def check_same_point(ctx: Ctx) -> None:
                         sv = sv or SymValues(m)
                         kind = "J" if "jac" in call.func.attr else "V"
                         for t in sv.texts(call.args[0]):
-                            pts.setdefault(recv, {}).setdefault(kind, {})[re.sub(rf"\b{re.escape(p)}\b", "_x", t)] = call
+                            pts.setdefault(recv, {}).setdefault(kind, {})[_canon_point(t, p)] = call
             for recv, d in sorted(pts.items()):
                 if set(d) != {"V", "J"}:
                     continue
